@@ -330,3 +330,75 @@ def replay(ctx, rec):
         call(S.sort_params, ins[0], **kw)
     elif op == 'apply_params':
         call(S.apply_params, ins[0], *S.sort_params(ins[0]))
+
+
+# --------------------------------------------------------------- composites
+
+def drive_composite(ctx, tier, n_cases=None):
+    """Random expression trees over the algebra: results of one operation are
+    inputs of the next, so provenance maps with several callables, depths > 1
+    and same-named star parameters reach every monitor."""
+    S = sigapi()
+    rnd = ctx.rng('composite')
+    pool = SigPool()
+    leaves = sigs.U(('a', 'b', 'c'), 2) + sigs.U(('x', 'y'), 2)
+    n_cases = n_cases or {'quick': 6000, 'thorough': 80000}[tier] // ctx.nshards
+
+    def leaf():
+        # fresh functions now and then, shared ones otherwise (shared callables
+        # reach a result through several inputs)
+        return pool.sig(rnd.choice(leaves), fresh=rnd.random() < 0.5)
+
+    def build(depth):
+        if depth == 0 or rnd.random() < 0.3:
+            return leaf()
+        op = rnd.choice(('merge', 'merge', 'embed', 'embed', 'mask', 'forwards'))
+        try:
+            if op == 'merge':
+                k = rnd.choice((2, 2, 3))
+                return S.merge(*[build(depth - 1) for _ in range(k)])
+            if op == 'embed':
+                k = rnd.choice((2, 2, 3))
+                return S.embed(*[build(depth - 1) for _ in range(k)],
+                               use_varargs=rnd.random() < 0.85, use_varkwargs=rnd.random() < 0.85)
+            if op == 'mask':
+                s = build(depth - 1)
+                cand = [p.name for p in s.parameters.values()
+                        if p.kind in (p.POSITIONAL_OR_KEYWORD, p.KEYWORD_ONLY)]
+                names = rnd.sample(cand, rnd.randint(0, min(2, len(cand))))
+                return S.mask(s, rnd.randint(0, 2), *names)
+            o, i = build(depth - 1), build(depth - 1)
+            cand = [p.name for p in i.parameters.values()
+                    if p.kind in (p.POSITIONAL_OR_KEYWORD, p.KEYWORD_ONLY)]
+            names = rnd.sample(cand, rnd.randint(0, min(1, len(cand))))
+            return S.forwards(o, i, rnd.randint(0, 1), *names)
+        except ValueError:
+            return leaf()
+
+    for _ in range(n_cases):
+        if ctx.out_of_time('composite expressions'):
+            break
+        ctx.count('driver.composite')
+        try:
+            build(3)
+        except Exception:
+            pass
+
+
+def drive_partial_retrieval(ctx, tier, n_cases=None):
+    """signatures.signature(functools.partial(f, *a, **k)) over the universe."""
+    import functools
+    S = sigapi()
+    rnd = ctx.rng('partial-retrieval')
+    U = sigs.U(('a', 'b', 'c'), 3, stars=sigs.STARS2[:1])
+    n_cases = n_cases or {'quick': 4000, 'thorough': 60000}[tier] // ctx.nshards
+    for _ in range(n_cases):
+        if ctx.out_of_time('partial retrievals'):
+            break
+        p = rnd.choice(U)
+        f = sigs.make_func(p, name='fn%d' % next(_fn_counter))
+        npos = rnd.randint(0, sigs.positional_capacity(p) + 1)
+        cand = [x[0] for x in p if x[1] in (PK, KO)] + [oracle.FOREIGN]
+        kws = rnd.sample(cand, rnd.randint(0, min(2, len(cand))))
+        ctx.count('driver.partial')
+        call(S.signature, functools.partial(f, *([0] * npos), **{k: 5 for k in kws}))
